@@ -18,7 +18,10 @@ Pats == <<
   <<L(<<"/">>), Dyn("x"), L(<<"/">>), Dyn("y")>>, <<L(<<"/", "a", "/">>), Dyn("x")>>, <<L(<<"/">>), Dyn("x"), L(<<"a">>)>>,
   <<L(<<"/">>), Dig("n")>>, <<L(<<"/">>), Dig("n"), L(<<"/">>), Dyn("x")>>, <<L(<<"/">>), AB("p"), L(<<"a">>)>>, <<L(<<"/">>), AB("p"), AB("q")>>,
   <<L(<<"/">>), Tl("t")>>, <<L(<<"/", "a">>), Tl("t")>>, <<L(<<"/", "a", "/">>), Tl("t")>>, <<L(<<"/">>), Dyn("x"), L(<<"/">>), Tl("t")>>,
-  <<Dyn("x")>>, <<L(<<"/">>), Dyn("x"), L(<<"1">>)>>, <<L(<<"/", "1">>), Dyn("x")>> >>
+  <<Dyn("x")>>, <<L(<<"/">>), Dyn("x"), L(<<"1">>)>>, <<L(<<"/", "1">>), Dyn("x")>>,
+  \* literal text with regex meta characters before / between / after dynamic segments
+  <<L(<<"/">>), Dyn("x"), L(<<".", "a">>)>>, <<L(<<"/">>), Dyn("x"), L(<<"+", "1">>)>>, <<L(<<"/", "a", ".">>), Dyn("x")>>,
+  <<L(<<"/">>), Dyn("x"), L(<<"(", "a">>), Dyn("y")>>, <<L(<<"/", "a", "*", "1">>)>>, <<L(<<"/">>), Dig("n"), L(<<"?">>)>> >>
 HasTail(p) == \E i \in 1..Len(p) : p[i].k = "tail"
 Paths == UNION {[1..n -> Alphabet] : n \in 0..MaxLen}
 MatchCases == {[kind |-> "match", pats |-> <<Pats[i]>>, prefix |-> pf, path |-> p] : i \in 1..Len(Pats), pf \in BOOLEAN, p \in Paths}
